@@ -31,6 +31,8 @@ import (
 //                                 (Context.SendRaw), sendto, parent, children, parallel, multicast,
 //                                 broadcast
 //   down <p>                      the victim stops; waits until S's receive loops reported it
+//   pause                         S's receive loops stop reporting failures (Router.Pause)
+//   kill <p>                      the victim stops, nobody waits for S to notice
 //   up <p>                        the victim listens again (same identity, same address)
 //   conns <p>                     number of connections with p in S's connection table
 //
@@ -147,6 +149,7 @@ func (p *c09proxy) serve() {
 }
 
 type c09world struct {
+	paused   bool
 	useProxy bool
 	cutArmed bool
 	// protocol instances created for sends (on S and, through tree propagation, on S2); they are
@@ -282,6 +285,9 @@ func (w *c09world) open(tr string, ups []int) string {
 }
 
 func (w *c09world) close() {
+	if w.paused {
+		w.s.Unpause()
+	}
 	for _, t := range w.tnis {
 		t.Done()
 	}
@@ -683,6 +689,17 @@ func c09exec(c *h.Ctx, cs *h.Case) {
 			if p, err := strconv.Atoi(tk[2]); err == nil && p > 0 {
 				obs = w.down(p)
 			}
+		case len(tk) == 2 && tk[1] == "pause":
+			w.s.Pause()
+			w.paused = true
+			obs = "ok"
+			w.tag("pause")
+		case len(tk) == 3 && tk[1] == "kill":
+			if p, err := strconv.Atoi(tk[2]); err == nil && p > 0 {
+				w.stop(w.victim(p))
+				obs = "-"
+				w.tag("kill")
+			}
 		case len(tk) == 3 && tk[1] == "up":
 			if p, err := strconv.Atoi(tk[2]); err == nil && p > 0 {
 				v := w.victim(p)
@@ -701,7 +718,7 @@ func c09exec(c *h.Ctx, cs *h.Case) {
 				n := w.s.VerifConnCount(w.sid(p).GetID())
 				obs = strconv.Itoa(n)
 				// the property's own oracle: no entry for a peer that is gone and was reported
-				if p > 0 && !w.victim(p).up && n != 0 {
+				if p > 0 && !w.victim(p).up && n != 0 && !w.paused {
 					cs.Fail("stale-connection-kept", fmt.Sprintf("peer %d is down and its loss was reported, the table still holds %d connection(s) with it", p, n))
 				}
 				w.tag("conns:" + strconv.Itoa(c03bucketN(n)))
@@ -847,6 +864,25 @@ func c09gen(c *h.Ctx, yield func(*h.Case)) {
 		}
 		emit("faults-"+tr, ops...)
 	}
+	// stale entries on the in-memory transport (a write on them fails deterministically): the
+	// survivor's receive loops are paused, a victim it is connected to dies and comes back, the
+	// next sends must reconnect — once per message — and deliver
+	for i := 0; i < c.Pick(12, 150); i++ {
+		nm := 1 + r.Intn(3)
+		ops := []string{"c09 open local 0,1,2", "c09 handler 10",
+			fmt.Sprintf("c09 send router 1 %d", 1+r.Intn(2)), "c09 send sendto 2 1", "c09 pause", "c09 kill 1"}
+		if r.Intn(2) == 0 {
+			ops = append(ops, "c09 send raw 1 1", "c09 conns 1")
+		}
+		ops = append(ops, "c09 up 1", fmt.Sprintf("c09 send router 1 %d", nm), "c09 conns 1")
+		e := []string{"raw", "sendto", "children", "broadcast"}[r.Intn(4)]
+		d := "1"
+		if e == "children" || e == "broadcast" {
+			d = "2,1"
+		}
+		ops = append(ops, fmt.Sprintf("c09 send %s %s 1", e, d), "c09 conns 1", "c09 conns 2")
+		emit("stale-local", ops...)
+	}
 	// crash points inside the identity exchange and inside a transfer: the connection towards
 	// the victim is cut after k bytes; afterwards the victim is reachable again
 	for i := 0; i < c.Pick(60, 600); i++ {
@@ -863,5 +899,5 @@ func c09gen(c *h.Ctx, yield func(*h.Case)) {
 }
 
 func init() {
-	h.RegisterProp(h.Prop{Name: "c09", Gen: c09gen, Exec: c09exec, Isolate: true, Workers: 6, Timeout: 45 * time.Second})
+	h.RegisterProp(h.Prop{Name: "c09", Gen: c09gen, Exec: c09exec, Isolate: true, Workers: 6, Timeout: 25 * time.Second})
 }
